@@ -135,6 +135,11 @@ def hole_node(tok: sqltok.Tok) -> Optional[NodeV]:
     return None
 
 
+def _gap_of(r: str) -> str:
+    i = r.find("elemof(call(<builtins.")
+    return r[i + 7:i + 80]
+
+
 class SqlAnalysis:
     def __init__(self, env, vcls: str):
         self.env = env
@@ -235,6 +240,15 @@ class SqlAnalysis:
 
     # ---- enumeration ----------------------------------------------------------------------------------------------
     def all_tmpls(self) -> Iterable[Tmpl]:
+        for t in self._all_tmpls():
+            if t.path.outcome == "return" and "elemof(call(<builtins." in repr(t.path.value):
+                # the handler iterates over the result of a builtin (zip, enumerate, map ...) applied to something the evaluator does not
+                # enumerate (an Enum class, a starred remainder): the term is the evaluator's gap, not the handler's SQL - no verdict
+                raise AnalysisError(f"{t.owner} builds its SQL text by iterating over `{_gap_of(repr(t.path.value))}`, which the evaluator does "
+                                    "not enumerate: the emitted text cannot be reconstructed", t.where)
+            yield t
+
+    def _all_tmpls(self) -> Iterable[Tmpl]:
         for v in self.node_tmpls.values():
             if v:
                 yield from v
